@@ -56,6 +56,10 @@ func c09Corpus() []c09Input {
 	pipeline("{ s(x: \"\"\"a \\\"\"\" b\"\"\") }", "block-string")
 	pipeline("{ s(x: \"\"\"", "block-string", "unterminated")
 	pipeline("{ s(x: \"\"\"\\", "block-string", "unterminated")
+	// list literals with an ill-typed element: rejected by validation, also behind the normalising cache
+	pipeline(`{ s(l: ["a"]) }`, "invalid-list-literal")
+	pipeline(`{ s(ll: [[[[1]]]], l: [1, [2]]) }`, "invalid-list-literal")
+	pipeline(`{ s(o: {d: [{a: "x"}], l: [[1, "2"]]}) }`, "invalid-list-literal")
 	// same-level cycles are executable; with directives on the spread too
 	direct(`{ ...F } fragment F on Q { s ...F }`, "cycle-same-level")
 	direct(`{ ...F } fragment F on Q { s ...F @include(if: true) }`, "cycle-same-level", "spread-directive")
